@@ -57,3 +57,34 @@ def env_salt(pid, tier, seed):
                               "clause": "the environment salt is sha256(json.dumps(<dict of literals>, sort_keys=True))", "model": None, "reason": why,
                               "native": {"reproduced": None, "detail": "syntactic obligation on a module-level constant: " + why}})
     return res
+
+
+def crash_faults(pid, tier, seed):
+    """C08, thorough tier only: BOUNDED cross-check of what the contracts assume (OS model, path algebra, the refinement step, the JSON
+    round trip of a memento, the runner's handlers).  One memoization of one result by one function on the real FilesystemStorageBackend
+    with every (primitive, outcome) fault of contracts/crash_replay.FAULTS injected, then the property observed after a restart.
+    Never counted as proved: reported under bounded_standins; a violating fault is a VIOLATION with its failing history."""
+    import json
+    import subprocess
+    if tier != "thorough":
+        return {"name": "crash-fault-enumeration", "obligations": 0, "discharged": 0, "failed": [], "undecided": [], "skipped": "thorough tier only"}
+    here = os.path.dirname(os.path.dirname(os.path.abspath(__file__)))
+    repo = os.environ.get("PYVC_REPO", "/repo")
+    p = subprocess.run(["/venv/bin/python", os.path.join(here, "contracts", "crash_replay.py"), repo], capture_output=True, text=True, timeout=1200,
+                       env=dict(os.environ, PYTHONPATH=here, PYVC_REPO=repo))
+    res = {"name": "crash-fault-enumeration", "obligations": 0, "discharged": 0, "failed": [], "undecided": []}
+    try:
+        d = json.loads(p.stdout)
+    except Exception:
+        res["undecided"].append({"function": "contracts/crash_replay.py", "obligation": "fault enumeration", "reason": "harness produced no result: " + (p.stderr or p.stdout)[-400:]})
+        return res
+    bound = "one memoization of one dict result by one function (plus a second function with the same content after the fault); %d mutating primitives; %d (primitive, outcome) faults; " \
+            "outcomes: crash after open, crash / error at write and close with nothing / half / all of the pending data on disk, crash after / error at replace and makedirs" % (len(d["primitives"]), d["faults_tried"])
+    res["bounded_standins"] = [{"what": "fault-injection run of the real code (labelled bounded, not counted as proved)", "bound": bound,
+                                "result": "no violating fault" if not d["violating"] else "%d violating faults" % len(d["violating"])}]
+    for v in d["violating"][:1]:
+        res["failed"].append({"function": "storage_filesystem:_FilesystemDataSource.output", "name": "bounded/crash-fault-enumeration/#%d %s %s" % (v["primitive"], v["name"], "/".join(v["fault"])),
+                              "kind": "bounded-fault-injection", "clause": "after any fault of a memoization every later call returns the right value, raises nothing and is served from the store again",
+                              "model": v, "reason": "; ".join(v["problems"][:3]),
+                              "native": {"reproduced": True, "detail": "fault %s at primitive #%d %s(%s): %s" % ("/".join(v["fault"]), v["primitive"], v["name"], v["path"], "; ".join(v["problems"][:3]))}})
+    return res
